@@ -328,6 +328,13 @@ loop:
 			}
 		}
 	}
+	if returned == "running" {
+		// leave no pump goroutine behind: closing the results channel makes it return
+		n := len(encoded)
+		close(res)
+		<-done
+		encoded = encoded[:n]
+	}
 	parts := make([]string, len(encoded))
 	for i, s := range encoded {
 		parts[i] = strconv.FormatUint(s, 10)
